@@ -64,11 +64,11 @@ def run(chk):
     chk.analysed(j)
     eff = effects(prog)
     chk.calls_resolved, chk.calls_unresolved = eff.resolved, eff.unresolved
-    r1_inputs_untouched(chk, j, eff)
-    r2_no_hidden_state(chk, j, eff, "C12.R2")
-    r3_overrides(chk, j)
-    r4_constitution(chk, j)
-    r5_geometry_order(chk, j)
+    chk.call(r1_inputs_untouched, chk, j, eff)
+    chk.call(r2_no_hidden_state, chk, j, eff, "C12.R2")
+    chk.call(r3_overrides, chk, j)
+    chk.call(r4_constitution, chk, j)
+    chk.call(r5_geometry_order, chk, j)
 
 
 def r1_inputs_untouched(chk, j, eff):
